@@ -284,6 +284,24 @@ def check_malformed(T, case, cls, text):
                     T.violation('malformed', 'unexpected-class', case, detail='%s %s/%s raises %s (both), expected %s' % (cls, name, api, a[1], expect))
 
 
+# tag tokens: every prefix form x every suffix of <= n pieces (URI escapes complete, multi-byte, truncated and malformed, in any
+# position), in four frames; the scanner decodes escapes and re-joins the pieces, LibYAML does the same in C
+TAG_PREFIXES = ['!', '!!', '!e!', '!<', '!<tag:yaml.org,2002:']
+TAG_PIECES = ['s', 'tr', '%74', '%C3%A9', '%', '%7', '%zz', '-', ',', '\xe9']
+TAG_FRAMES = ['%s x\n', '- %s x\n- y\n', '[%s x, y]\n', '{%s k: v}\n']
+
+
+def tag_texts(n):
+    import itertools
+    for pre in TAG_PREFIXES:
+        for L in range(0, n + 1):
+            for tup in itertools.product(TAG_PIECES, repeat=L):
+                tag = pre + ''.join(tup) + ('>' if pre.startswith('!<') else '')
+                for fr in TAG_FRAMES:
+                    yield ('%TAG !e! tag:yaml.org,2002:\n--- ' if pre == '!e!' and fr == TAG_FRAMES[0] else
+                           '%TAG !e! tag:yaml.org,2002:\n---\n' if pre == '!e!' else '') + fr % tag
+
+
 def plan(tier, seed):
     q = tier == 'quick'
     jobs = []
@@ -294,6 +312,7 @@ def plan(tier, seed):
         allj = gen.string_jobs('raw', len(SIGMA), 5, plen=2, minlen=5)
         jobs += [j for i, j in enumerate(allj) if i % 16 == seed % 16]
     jobs += [('dumpers', k, 32, tier) for k in range(32)]
+    jobs += [('tagtext', k, 16, 3 if q else 4) for k in range(16)]
     return jobs
 
 
@@ -326,6 +345,16 @@ def run_job(job, T):
                 if T.trace: T.begin(c)
                 compare_text(T, 'portable', c, t, deep=True)
             T.sample('portable', c)
+    elif kind == 'tagtext':
+        _, k, np_, n = job
+        c = None
+        for i, t in enumerate(tag_texts(n)):
+            if i % np_ != k:
+                continue
+            c = {'input': t}
+            if T.trace: T.begin(c)
+            compare_text(T, 'tagtext', c, t, deep=True)
+        if c: T.sample('tagtext', c)
     elif kind == 'dumpers':
         from . import c06_dumpers
         c06_dumpers.run(job, T, compare_text)
